@@ -42,7 +42,11 @@ SumSB(s) == IF Len(s) = 0 THEN 0 ELSE Head(s) + SumS(Tail(s))
 SumS(s) == SumSB(s)
 Extent(n, L, J) == IF J = 0 THEN n ELSE LET ls == LenSeq(n, L, J) IN ls[J] + SumS(ls)
 
-AxesChoices(r) == {<<>>} \cup {<<a>> : a \in (0 - r)..(r - 1)} \cup (IF r >= 2 THEN {<<0, r - 1>>, <<-1, 0>>} ELSE {})
+\* (pairs in ascending, descending and mixed-sign spellings: the order of `axes` is the caller's, pywt packs the detail
+\* bands in that order, and the coefficient slices must be built for the same order)
+AxesChoices(r) == {<<>>} \cup {<<a>> : a \in (0 - r)..(r - 1)}
+                  \cup (IF r >= 2 THEN {<<0, r - 1>>, <<-1, 0>>, <<r - 1, 0>>, <<0, -1>>, <<-1, -2>>} ELSE {})
+                  \cup (IF r >= 3 THEN {<<2, 0, 1>>, <<1, -1>>} ELSE {})
 
 Init == \E w \in Wavelets, s \in Shapes, lev \in Levels : \E ax \in AxesChoices(Len(s)) :
    LET L == w[2]  J == EffLevel(s, ax, L, lev)  A == AxSet(ax, Len(s)) IN
